@@ -201,13 +201,27 @@ def scenarios(tier):
             compare_ctx=False)
         # (one deviation: the timer job overtakes the child's result)
         jobs.append((scn, 1 if quick else 2, 40 if quick else 1200, 1))
+    # every policy program of C08 (retry matrix, waits, timeout races,
+    # fail-on, task kinds x policies, policy pairs) paused at every point
+    # and resumed at every later point: "tasks created before the pause may
+    # still start and finish, including their retries, delays and remaining
+    # items"; the policy oracles (attempts, delays, timeout monitor) apply
+    # during the pause as well
+    for name, prog, res, extra in _c08.programs(tier):
+        if 'menu' in extra:
+            continue        # pause-before programs need their own resume
+        scn = PausePolicyScenario(
+            'policy/%s/pause_resume' % name, prog, results=res,
+            menu=['pause', 'resume'], max_cmds=2,
+            sequences=[['pause', 'resume']], **extra)
+        jobs.append((scn, 0 if quick else 1, 40 if quick else 1200, 1))
     return jobs
 
 
 def main(tier):
     rep = common.Report(PROP, tier)
     jobs = common.rotate(scenarios(tier))
-    deadline = time.time() + (170 if tier == 'quick' else 1500)
+    deadline = time.time() + (300 if tier == 'quick' else 1500)
     res = common.parallel_map(common.explore_job, jobs, deadline=deadline)
     rep.add_explore_results(jobs, res)
     rep.assumptions = [
